@@ -90,6 +90,28 @@ pub fn gen_sources(rng: &mut Rng, tier: &Tier) -> Vec<Case> {
             cases.push(pulls_case(&format!("chain({},{})", l, l2), 10));
         }
     }
+    // counts at the top of their range: a width of `usize::MAX` is a width ("repeat(first).take(usize::MAX).chain(..)" is
+    // a perfectly good iterator); only a prefix can ever be pulled
+    for l in leaves {
+        for big in [usize::MAX, usize::MAX - 1] {
+            for e in [
+                format!("take({},{})", big, l),
+                format!("pade({},{})", big, l),
+                format!("padc(9,{},{})", big, l),
+                format!("repeat(4,{})", big),
+                format!("take(3,pade({},{}))", big, l),
+                format!("pade(2,take({},{}))", big, l),
+                format!("chain(take({},{}),iter[5])", big, l),
+                format!("cache(pade({},{}))", big, l),
+            ] {
+                cases.push(pulls_case(&e, 7));
+            }
+            if l.starts_with("iter") {
+                cases.push(pulls_case(&format!("skip({},{})", big, l), 4));
+                cases.push(pulls_case(&format!("cycle(pade({},{}))", big, l), 6));
+            }
+        }
+    }
     // random trees of depth <= 3
     for _ in 0..tier.n(600, 8000) {
         let e = src_expr(rng, 3, false);
@@ -279,6 +301,26 @@ pub fn gen_sinks(rng: &mut Rng, tier: &Tier) -> Vec<Case> {
             cases.push(c);
         }
     }
+    // the arithmetic sinks at `i64`, samples within a small spread around a level near the top (or bottom) of the range:
+    // the sinks' own recurrences (old + (x - old) / n; products of two small deviations) stay in range there, any
+    // reconstruction of the running SUM does not
+    for kind in ["sink_mean_i64", "sink_meanvar_i64", "sink_stats_i64", "sink_integrate_i64"] {
+        for _ in 0..tier.n(25, 250) {
+            let level: i64 = if kind == "sink_integrate_i64" {
+                rng.range(-1000, 1000)
+            } else {
+                *rng.pick(&[i64::MAX - 2000, i64::MAX / 2 + 7, i64::MIN + 2000, i64::MAX / 3, 1i64 << 40, 0])
+            };
+            let as_filter = rng.chance(1, 2);
+            let mut c = vec![format!("new 1 {}", kind), "fin 1".to_string()];
+            for _ in 0..rng.range(1, 9) {
+                let v = level + rng.range(-1000, 1000);
+                c.push(if as_filter { format!("ff 1 {}", v) } else { format!("sink 1 {}", v) });
+                c.push("fin 1".into());
+            }
+            cases.push(c);
+        }
+    }
     // the order-only sinks at the smallest machine integers, ends of the range included
     for (suffix, vals) in [("u8", [0i64, 1, 2, 127, 128, 254, 255]), ("i8", [-128i64, -127, -1, 0, 1, 126, 127])] {
         for kind in ["sink_min", "sink_max", "sink_bounds"] {
@@ -430,6 +472,28 @@ pub fn gen_pipes(rng: &mut Rng, tier: &Tier) -> Vec<Case> {
             c.push("plog 1".into());
             cases.push(c);
         }
+    }
+    // long runs: more samples through one pipe than a 16-bit counter can count, in each of the three roles
+    {
+        let n = crate::gen::LONG_RUN;
+        let leaves = |rng: &mut Rng, k: usize| -> String { (0..k).map(|_| pipe_leaf(rng)).collect::<Vec<_>>().join("|") };
+        let mut c = vec![format!("new 1 pipe shape=P(P(L0,U(L1)),L2) leaves={}", leaves(rng, 3)), "plong 1".to_string()];
+        for _ in 0..n {
+            c.push(format!("pf 1 {}", rng.range(-5, 5)));
+        }
+        cases.push(c);
+        let mut c = vec![format!("new 1 pipe shape=P(P(S,L0),L1) leaves={} source=take({},incr(0,1))", leaves(rng, 2), n), "plong 1".to_string()];
+        for _ in 0..n + 2 {
+            c.push("ppull 1".into());
+        }
+        cases.push(c);
+        let mut c = vec![format!("new 1 pipe shape=P(L0,P(L1,K)) leaves={} sink=own_sum", leaves(rng, 2)), "plong 1".to_string()];
+        for _ in 0..n {
+            c.push(format!("psink 1 {}", rng.range(-5, 5)));
+        }
+        c.push("pfin 1".into());
+        c.push("palive 1".into());
+        cases.push(c);
     }
     let reps = tier.n(4, 30);
     for k in 1..=6usize {
